@@ -481,11 +481,15 @@ def x_unlim_extend(w, s):
                 v["values"] = np.concatenate([v["values"], np.zeros(grew, dtype=v["values"].dtype)])
             else:
                 pad = np.full(grew, np.nan)
+                v.setdefault("orig_dtype", v["values"].dtype)
                 v["values"] = np.concatenate([v["values"].astype(float), pad])
                 v["has_missing"] = True
         if k_ == name:
             for p_, x in zip(positions, vals):
                 v["values"][p_] = x
+            if v.get("has_missing") and v["values"].dtype.kind == "f" and not np.isnan(v["values"]).any():
+                v["values"] = v["values"].astype(v.get("orig_dtype", v["values"].dtype))   # every missing cell has been written
+                v["has_missing"] = False
     if "C20" in w.props:
         got = g[1]
         gl = V.labels_list(got.axes[0].values)
